@@ -1,6 +1,7 @@
 package rules
 
 import (
+	"go/token"
 	"kverif/internal/load"
 	"sort"
 	"strings"
@@ -25,6 +26,7 @@ func c06(c *Ctx) {
 	r.Decides("allocateCPUSet returns a CPU set under a required bind policy only after satisfiedRequiredCPUBindPolicy returned nil; that verifier returns nil only if the policy predicate held")
 	r.Decides("NodeAllocation.update is release+addPodAllocation unless a skip compares every field addPodAllocation uses for the ledgers; in takePreferredCPUs every CPU set offered to takeCPUs is derived from the free set by Intersection/Difference only, and the second offer excludes the first")
 	r.Decides("a pod delete that arrives as a tombstone (by value) releases the allocation like a plain delete")
+	r.Decides("getAvailableCPUs works on a clone of the CPU ledger (no write to shared state under the read lock) and returns the topology's CPUs minus those whose reference count reached the sharing limit (>=) minus the reserved CPUs")
 	r.Declines("exact count of CPUs, disjointness of CPU ids, never-more-than-free (set arithmetic over topologies)")
 	r.Declines("equality of the ledger with the sum of live pods' allocations over a history")
 
@@ -42,6 +44,7 @@ func c06(c *Ctx) {
 
 	c06frame(c)
 	c06subset(c)
+	c06available(c)
 
 	// ---- MIRROR
 	r.Rule("MIRROR: the effect sets of addPodAllocation and release over the receiver's fields have the same roots and dual operations (mapstore<->mapdelete, Insert<->delete, Add<->Subtract*, RefCount+1<->RefCount-1) on the same amount operand")
@@ -403,4 +406,81 @@ func c06subset(c *Ctx) {
 			r.Check(ok, "FLOW", fkey(fn)+"/offers-disjoint", c.InstrPos(second), "the second offer excludes the first", "after the first takeCPUs the second one is not offered Difference(available, <first offer>): a CPU can be taken twice and the result is smaller than requested")
 		}
 	}
+}
+
+// c06available: the free set honours the sharing limit and the reserved CPUs.
+func c06available(c *Ctx) {
+	r := c.R
+	r.Rule("EFFECT+FLOW(free set): NodeAllocation.getAvailableCPUs writes nothing reachable from the receiver (it edits a Clone of allocatedCPUs); the set it returns is CPUDetails.CPUs() with, along a chain of Difference calls, both the reservedCPUs parameter and a Filter result removed, and that filter keeps a CPU exactly when its RefCount >= maxRefCount")
+	fn := c.Fn(numaPkg, "NodeAllocation", "getAvailableCPUs")
+	if fn == nil {
+		return
+	}
+	key := fkey(fn)
+	es := an.DeepEffects(fn, an.Receiver(fn), nil, 3)
+	r.Check(len(es) == 0, "EFFECT", key+"/no-shared-write", c.Pos(fn.Pos()), "the ledger is cloned before it is edited", "getAvailableCPUs writes state reachable from the NodeAllocation ("+strings.Join(effStrings(es), "; ")+"): it runs under the read lock, and trial releases of preferred CPUs would change the real ledger")
+	// the returned set
+	var reserved *ssa.Parameter
+	for _, p := range fn.Params {
+		if p.Name() == "reservedCPUs" {
+			reserved = p
+		}
+	}
+	var result ssa.Value
+	for _, b := range fn.Blocks {
+		if ret, ok := b.Instrs[len(b.Instrs)-1].(*ssa.Return); ok && len(ret.Results) == 2 {
+			result = ret.Results[0]
+		}
+	}
+	// named results are cells: take the stored value
+	if u, ok := result.(*ssa.UnOp); ok {
+		if a, ok := u.X.(*ssa.Alloc); ok {
+			for _, ref := range *a.Referrers() {
+				if st, ok := ref.(*ssa.Store); ok && st.Addr == ssa.Value(a) {
+					if _, isCall := st.Val.(*ssa.Call); isCall {
+						result = st.Val
+					}
+				}
+			}
+		}
+	}
+	var excluded []ssa.Value
+	base := result
+	for {
+		call, ok := base.(*ssa.Call)
+		if !ok || !strings.HasSuffix(an.CalleeName(&call.Call), "CPUSet).Difference") {
+			break
+		}
+		excluded = append(excluded, call.Call.Args[1])
+		base = call.Call.Args[0]
+	}
+	fromTopo := false
+	if call, ok := base.(*ssa.Call); ok && an.ShortCallee(&call.Call) == "CPUs" && strings.Contains(an.Path(call.Call.Args[0]), "cpuTopology") {
+		fromTopo = true
+	}
+	hasReserved, hasFilter := false, false
+	var filterFn *ssa.Function
+	for _, e := range excluded {
+		if reserved != nil && e == ssa.Value(reserved) {
+			hasReserved = true
+		}
+		if call, ok := e.(*ssa.Call); ok && an.ShortCallee(&call.Call) == "Filter" {
+			hasFilter = true
+			if mc, ok := call.Call.Args[len(call.Call.Args)-1].(*ssa.MakeClosure); ok {
+				filterFn, _ = mc.Fn.(*ssa.Function)
+			}
+		}
+	}
+	r.Check(fromTopo && hasReserved && hasFilter, "FLOW", key+"/free=all-minus-full-minus-reserved", c.Pos(fn.Pos()), "topology CPUs minus saturated minus reserved", sprintf("the returned free set is not cpuTopology.CPUDetails.CPUs() with the saturated CPUs and the reserved CPUs removed (from topology: %v, reserved removed: %v, saturated removed: %v)", fromTopo, hasReserved, hasFilter))
+	okCmp := false
+	if filterFn != nil {
+		for _, b := range filterFn.Blocks {
+			if ret, ok := b.Instrs[len(b.Instrs)-1].(*ssa.Return); ok {
+				if bo, ok := ret.Results[0].(*ssa.BinOp); ok && bo.Op == token.GEQ && strings.HasSuffix(an.Path(bo.X), ".RefCount") && strings.Contains(an.Path(bo.Y), "maxRefCount") {
+					okCmp = true
+				}
+			}
+		}
+	}
+	r.Check(okCmp, "FLOW", key+"/saturated=refcount>=limit", c.Pos(fn.Pos()), "a CPU is saturated when RefCount >= maxRefCount", "the saturation filter is not 'RefCount >= maxRefCount': with '>' a CPU is handed to one more pod than the sharing limit allows")
 }
